@@ -1,12 +1,11 @@
 ----------------------------- MODULE MC_LimitBid -----------------------------
 (* Bounded model of the limit-bid book with attacker-chosen message contents. *)
 EXTENDS LimitBid, TLC, Json
-CONSTANTS Fixed,      \* FALSE: withdraw as the code does it; TRUE: as the statement demands (repaired design)
-          Bidders, DepAmts, Prems, MaxDeps, Fund, Emit
+CONSTANTS Bidders, DepAmts, Prems, MaxDeps, Fund, Emit
 
 C == [wfn |-> 1, wfd |-> 10, cfn |-> 1, cfd |-> 5]
-VARIABLES st, ndep, deviated
-vars == <<st, ndep, deviated>>
+VARIABLES st, ndep
+vars == <<st, ndep>>
 
 UBal == [ucmst |-> Fund, uatom |-> Fund, uother |-> Fund]
 St0 == [dep |-> <<>>, total |-> 0, totalFound |-> FALSE,
@@ -17,35 +16,31 @@ Key(s) == <<[i \in 1..Len(s.dep) |-> <<s.dep[i].prem, s.dep[i].u, s.dep[i].amt>>
             [u \in {"u1", "u2", "u3", "a2"} |-> <<s.bal[u].ucmst, s.bal[u].uatom, s.bal[u].uother>>]>>
 Out(a, args, pre, post) ==
   IF Emit THEN PrintT(<<"T", ToJson([a |-> a, args |-> args, pre |-> Key(pre), post |-> Key(post)])>>) ELSE TRUE
-Init == st = St0 /\ ndep = 0 /\ deviated = FALSE /\ Out("Init", InitArgs, St0, St0)
-Step(a, args, post, dev) == st' = post /\ deviated' = (deviated \/ dev) /\ Out(a, args, st, post)
+Init == st = St0 /\ ndep = 0 /\ Out("Init", InitArgs, St0, St0)
+Step(a, args, post) == st' = post /\ Out(a, args, st, post)
 
 DoDeposit == /\ ndep < MaxDeps
              /\ \E u \in Bidders, prem \in Prems, amt \in DepAmts :
                   /\ Step("Deposit", [u |-> u, coll |-> 1, debt |-> 2, prem |-> prem, amt |-> amt, denom |-> DebtDenom],
-                          Deposit(st, C, u, 1, 2, prem, amt, DebtDenom).st, FALSE)
+                          Deposit(st, C, u, 1, 2, prem, amt, DebtDenom).st)
                   /\ ndep' = ndep + 1
 DoBadDeposit == \E u \in Bidders :
-                  \/ Step("Deposit", [u |-> u, coll |-> 1, debt |-> 2, prem |-> 31, amt |-> 5, denom |-> DebtDenom], Deposit(st, C, u, 1, 2, 31, 5, DebtDenom).st, FALSE) /\ UNCHANGED ndep
-                  \/ Step("Deposit", [u |-> u, coll |-> 1, debt |-> 2, prem |-> 2, amt |-> 5, denom |-> CollDenom], Deposit(st, C, u, 1, 2, 2, 5, CollDenom).st, FALSE) /\ UNCHANGED ndep
+                  \/ Step("Deposit", [u |-> u, coll |-> 1, debt |-> 2, prem |-> 31, amt |-> 5, denom |-> DebtDenom], Deposit(st, C, u, 1, 2, 31, 5, DebtDenom).st) /\ UNCHANGED ndep
+                  \/ Step("Deposit", [u |-> u, coll |-> 1, debt |-> 2, prem |-> 2, amt |-> 5, denom |-> CollDenom], Deposit(st, C, u, 1, 2, 2, 5, CollDenom).st) /\ UNCHANGED ndep
 DoCancel == \E u \in Bidders, prem \in Prems :
-              Step("Cancel", [u |-> u, coll |-> 1, debt |-> 2, prem |-> prem], Cancel(st, C, u, 1, 2, prem).st, FALSE) /\ UNCHANGED ndep
+              Step("Cancel", [u |-> u, coll |-> 1, debt |-> 2, prem |-> prem], Cancel(st, C, u, 1, 2, prem).st) /\ UNCHANGED ndep
 (* withdraw: amounts below, equal to, above and far above the own deposit; deposited, collateral, unrelated denomination *)
 WAmts(d) == IF d <= 0 THEN {3} ELSE {x \in {d - 7, d, d + 1, 40} : x > 0}
 DoWithdraw == \E u \in Bidders, prem \in Prems :
                 \E amt \in WAmts(DepOf(st, prem, u)), denom \in LDenoms :
                   /\ (denom # DebtDenom => amt \in {DepOf(st, prem, u) - 7, 40, 3})
-                  /\ LET r == IF Fixed THEN WithdrawFixed(st, C, u, 1, 2, prem, amt, denom) ELSE WithdrawCode(st, C, u, 1, 2, prem, amt, denom)
-                         dev == r.st # WithdrawFixed(st, C, u, 1, 2, prem, amt, denom).st
-                     IN Step("Withdraw", [u |-> u, coll |-> 1, debt |-> 2, prem |-> prem, amt |-> amt, denom |-> denom], r.st, dev)
+                  /\ Step("Withdraw", [u |-> u, coll |-> 1, debt |-> 2, prem |-> prem, amt |-> amt, denom |-> denom],
+                          Withdraw(st, C, u, 1, 2, prem, amt, denom).st)
                   /\ UNCHANGED ndep
 Next == DoDeposit \/ DoBadDeposit \/ DoCancel \/ DoWithdraw
 Spec == Init /\ [][Next]_vars
 
-(* states reached by a deviating step are executed on the real code but not expanded further *)
-StateBound == ~deviated
-
 InvTotal == TotalMatches(st)
-InvNonNeg == ~deviated => \A i \in 1..Len(st.dep) : st.dep[i].amt >= 0
-InvCustody == ~deviated => CustodyHolds(st)
+InvNonNeg == \A i \in 1..Len(st.dep) : st.dep[i].amt >= 0
+InvCustody == CustodyHolds(st)
 =============================================================================
